@@ -145,6 +145,9 @@ def cli_roundtrip(res, tier):
     data["sibdry"] = float(eq0.psi_sep[0])
     with open(os.path.join(wd, "in.geqdsk"), "w") as fh:
         _geqdsk.write(data, fh)
+        # what EFIT appends after the limiter points (kvtor, rvtor, nmass) and a trailing comment: not used by the reader, but part of the
+        # file that has to be embedded byte for byte
+        fh.write("\n    0  0.170000000E+01    0\n ! written by a test harness; trailing text after the last value the parser needs\n\n")
     opts = dict(gridlab.SMALL, reverse_current=True, psi_interpolation_method="spline",
                 xpoint_poloidal_spacing_length=0.05)
     with open(os.path.join(wd, "in.yaml"), "w") as fh:
